@@ -49,10 +49,10 @@ def _worker(args):
         idx, line = specrun.spec_line(spec, N, N + 4)
         out["line"] = line
         out["root_is_0"] = idx[spec.root] == 0 and spec.root == root
-        out["py"] = specrun.py_terms_line(spec, idx, N)
-        out["truth"] = specrun.truth_line(idx, N)
         out["nclasses"] = len(idx)
         out["genuine"] = [f"{r.comb_class!r}: {g}" for r in spec for g in [specrun.genuine(r)] if g]
+        out["py"] = specrun.py_terms_line(spec, idx, N)
+        out["truth"] = specrun.truth_line(idx, N)
         out["root_counts"] = [sum(spec.get_terms(n).values()) for n in range(N + 1)]
         out["root_truth"] = [sum(specrun.true_terms(root, n).values()) for n in range(N + 1)]
         specrun.rule_kinds(spec, out["kinds"])
@@ -118,11 +118,13 @@ def make_configs(rnd, n):
         elif i % 10 == 9:
             kind = "sep_reverse"
         cfgs.append(specrun.rand_config(rnd, kind))
-        if i % 12 == 11:  # U-gram (ugram.py): unions with a repeated child, products, reverse rules that are ordinary / equivalences
+        if i % 8 == 4:  # U-gram (ugram.py): unions with a repeated child, products, reverse rules that are ordinary / equivalences
             cfg = dict(cfgs[-1])
-            cfg.update(gram=[rnd.choice(["S", "F", "Y", "E"]) for _ in range(rnd.choice([1, 2, 2, 3]))], gram_flat=rnd.random() < 0.7,
+            cfg.update(gram=[rnd.choice(["S", "F", "Y", "E", "Q", "Q"]) for _ in range(rnd.choice([1, 2, 2, 3]))], gram_flat=rnd.random() < 0.7,
                        alpha="ab", patterns=[], params=[], mode="", prefix="", prefver=None, packver=None, factory=None, rot=False, sep=None,
                        reverse_needed=False, symmetry=False, inferral=False, iterative=False, reverse=True)
+            if cfg["gram_flat"] and rnd.random() < 0.6:
+                cfg["db"] = "RuleDBForest"  # the only database that can use the reverse rules these universes need
             cfgs[-1] = cfg
     return cfgs
 
@@ -139,7 +141,8 @@ def run_specs(pid, tier, seed, factor, judge):
     N = common.scale(tier, 6, 8)
     outs = specrun.pool_map(worker, [(c, N) for c in make_configs(rnd, n)])
     specrun.quiet()
-    lines = [o["line"] for o in outs if o["status"] == "spec"]
+    # a specification whose counting fails (status evalexc / evaltimeout) still has a skeleton: it is judged as well
+    lines = [o["line"] for o in outs if "line" in o and "genuine" in o]
     lean = common.run_driver("Spec", "\n".join(lines) + "\n") if lines else []
     assert len(lean) == len(lines)
     k = 0
@@ -152,7 +155,11 @@ def run_specs(pid, tier, seed, factor, judge):
             res.case(("cfg", repr(sorted(cfg.items()))), nontrivial=False)
             if o["status"] in ("exc", "evalexc", "timeout", "evaltimeout"):
                 res.dist["exception: " + o["exc"][:90]] += 1
-                judge(res, o, None)
+                if "line" in o and "genuine" in o:
+                    judge(res, o, lean[k])
+                    k += 1
+                else:
+                    judge(res, o, None)
             continue
         res.case(("cfg", repr(sorted(cfg.items()))), nontrivial=o["nclasses"] >= 3)
         res.traces += 1
